@@ -7,7 +7,9 @@ row denominators, C04_exec_sound) and an entry passes when |num - den*S_impl| <=
 Oracle (property text, NumPy/SciPy only): simultaneous recording => merged == single-setup cross-spectral matrix of
 (references, roving in setup order) against the references on the grid k*fs/nxseg; in general reference block = mean,
 roving block = transmissibility . mean; a per-setup gain changes nothing but the mean reference block.
-Class level: FDD_MS / EFDD_MS / pLSCF_MS .result.{freq,Sy} through MultiSetup_PreGER.run_all.
+Class level: FDD_MS / EFDD_MS / pLSCF_MS .result.{freq,Sy} through MultiSetup_PreGER.run_all, against the grid k*fs/nxseg, the SciPy
+reference estimator, SD_PreGER, and FDD / EFDD / pLSCF .result.{freq,Sy} through SingleSetup on the same simultaneous recording.
+Segment lengths include odd and non-power-of-two values in both tiers (an odd nxseg separates k*fs/nxseg from linspace(0, fs/2, ..)).
 """
 import glob
 import json
@@ -176,10 +178,11 @@ def run_case(ctx, case, pend, lines_cap):
         ctx.fail("oracle", "SD_PreGER raised %s: %s (%s)" % (type(ex).__name__, str(ex)[:200], tag), case, key="C04:SD_PreGER:raises")
         return
     # ---- harness's own per-setup spectra (witnesses): SD_est on [ref; mov] against ref, as SD_PreGER consumes them
-    G_all = []
+    G_all, F_all = [], []
     for y in Y:
         f_w, S = fdd.SD_est(np.vstack([y["ref"], y["mov"]]), y["ref"], 1.0 / fs, nxseg, method, pov)
         G_all.append(np.asarray(S))
+        F_all.append(np.asarray(f_w))
     nf = G_all[0].shape[2]
 
     if malformed:
@@ -201,8 +204,19 @@ def run_case(ctx, case, pend, lines_cap):
         ctx.fail("oracle", "SD_PreGER shape %s / freq %s, expected (%d,%d,%d) (%s)" % (Sy.shape, np.shape(freq), rows, nr, len(grid), tag),
                  case, key="C04:SD_PreGER:shape")
         return
-    if not np.allclose(freq, grid, rtol=1e-12, atol=0):
-        ctx.fail("oracle", "SD_PreGER frequency grid is not k*fs/nxseg (%s)" % tag, case, key="C04:SD_PreGER:grid")
+    freq = np.asarray(freq)
+    ftol = 1e-12 * fs
+    if np.iscomplexobj(freq) or not np.all(np.isfinite(freq)) or not np.allclose(freq, grid, rtol=0, atol=ftol):
+        ctx.fail("oracle", "SD_PreGER frequency vector is not the grid k*fs/nxseg, k=0..nxseg//2 of the run parameters (%s): last line %.12g, grid %.12g"
+                 % (tag, float(np.real(freq[-1])), grid[-1]), case, key="C04:SD_PreGER:grid")
+    for kk, fw in enumerate(F_all):
+        if np.shape(fw) != freq.shape or not np.allclose(freq, fw, rtol=0, atol=ftol):
+            ctx.fail("oracle", "SD_PreGER frequency vector differs from the grid of SD_est for setup %d with the same run parameters (%s)" % (kk, tag), case,
+                     key="C04:SD_PreGER:grid-vs-SD_est")
+            break
+    if not np.all(np.isfinite(Sy)):
+        ctx.fail("oracle", "SD_PreGER returned non-finite spectra on well-conditioned input (%s)" % tag, case, key="C04:SD_PreGER:non-finite")
+        return
 
     # ---- conditioning per line (float comparisons are judged only where every reference block is well conditioned)
     cond = np.zeros(nf)
@@ -235,8 +249,9 @@ def run_case(ctx, case, pend, lines_cap):
                            ("SciPy reference estimator", lambda: ref_estimator(allrec, Y[0]["ref"], fs, nxseg, method, pov))):
             f1, S1 = est()
             S1 = np.asarray(S1)
-            if S1.shape != Sy.shape or not np.allclose(f1, freq, rtol=1e-12, atol=0):
-                ctx.fail("oracle", "merged matrix and single-setup matrix (%s) are on different grids/shapes (%s)" % (which, tag), case,
+            if S1.shape != Sy.shape or np.shape(f1) != freq.shape or not np.allclose(f1, freq, rtol=0, atol=ftol):
+                ctx.fail("oracle", "merged matrix and single-setup matrix (%s) are not on the same frequency grid / shape (%s): merged %s last %.12g, "
+                         "single-setup %s last %.12g" % (which, tag, Sy.shape, float(np.real(freq[-1])), S1.shape, float(np.asarray(f1)[-1])), case,
                          key="C04:SD_PreGER:single-setup-grid")
                 break
             sc = np.maximum(np.abs(S1).max(axis=(0, 1)), 1e-6 * float(np.abs(S1).max()))
@@ -255,11 +270,11 @@ def run_case(ctx, case, pend, lines_cap):
     gi, g = case["gain"]["i"], case["gain"]["g"]
     Yg = [dict(ref=y["ref"] * (g if k == gi else 1.0), mov=y["mov"] * (g if k == gi else 1.0)) for k, y in enumerate(Y)]
     try:
-        _, Sg = fdd.SD_PreGER(Yg, fs, nxseg, pov, method)
+        fg, Sg = fdd.SD_PreGER(Yg, fs, nxseg, pov, method)
     except Exception:
-        Sg = None
-    if Sg is None or np.shape(Sg) != Sy.shape:
-        ctx.fail("oracle", "SD_PreGER fails or changes shape when setup %d is multiplied by %s (%s)" % (gi, g, tag), case, key="C04:SD_PreGER:gain")
+        fg, Sg = None, None
+    if Sg is None or np.shape(Sg) != Sy.shape or np.shape(fg) != freq.shape or not np.allclose(fg, freq, rtol=0, atol=ftol):
+        ctx.fail("oracle", "SD_PreGER fails or changes shape / frequency grid when setup %d is multiplied by %s (%s)" % (gi, g, tag), case, key="C04:SD_PreGER:gain")
     else:
         for k in range(nf):
             if not judged[k]:
@@ -411,6 +426,29 @@ def class_level(ctx, case):
                  key="C04:run_all:raises")
         return
     allrec = np.vstack([Y[0]["ref"]] + [y["mov"] for y in Y])
+    nr = len(ref_ind[0])
+    # the single-setup classes on the same simultaneous recording (all sensors: references, then roving in setup order)
+    from pyoma2.algorithms import EFDD, FDD, pLSCF
+    from pyoma2.setup import SingleSetup
+    single = {}
+    try:
+        ss = SingleSetup(np.ascontiguousarray(allrec.T), fs=fs)
+        sal = []
+        for (scls, name), (nxseg, method, pov) in zip(((FDD, "fdd"), (EFDD, "efdd"), (pLSCF, "plscf")), case["params"]):
+            kw = dict(name=name, nxseg=nxseg, method_SD=method, pov=pov)
+            if scls is pLSCF:
+                kw["ordmax"] = 4
+            sal.append(scls(**kw))
+        ss.add_algorithms(*sal)
+        for n, a in zip(("FDD_MS", "EFDD_MS", "pLSCF_MS"), sal):
+            try:
+                ss.run_by_name(a.name)
+                single[n] = a
+            except Exception as ex:  # the single-setup class itself is outside C04: comparison skipped for this class only
+                ctx.note("single-setup %s could not be run for the class-level comparison (%s); that class is compared with the grid, the "
+                         "SciPy estimator and SD_PreGER only" % (type(a).__name__, type(ex).__name__))
+    except Exception as ex:
+        ctx.note("SingleSetup could not be built for the class-level comparison: %s" % type(ex).__name__)
     for cls, alg, nxseg, method, pov in algs:
         c = dict(case, cls=cls.__name__, nxseg=nxseg, method=method, pov=pov)
         ctx.count(c)
@@ -419,10 +457,34 @@ def class_level(ctx, case):
         f1, S1 = ref_estimator(allrec, Y[0]["ref"], fs, nxseg, method, pov)
         fr, Sr = np.asarray(alg.result.freq), np.asarray(alg.result.Sy)
         tag = "%s nxseg=%d method_SD=%s pov=%s" % (cls.__name__, nxseg, method, pov)
-        if Sr.shape != S1.shape or fr.shape != f1.shape or not np.allclose(fr, f1, rtol=1e-12, atol=0):
-            ctx.fail("oracle", "%s: result.freq/result.Sy are not on the grid of the run parameters (shape %s, expected %s)" % (tag, Sr.shape, S1.shape),
+        ftol = 1e-12 * fs
+        grid = np.arange(nxseg // 2 + 1) * (fs / nxseg)
+        if cls.__name__ in single:
+            rs = single[cls.__name__].result
+            fs1, Ss1 = np.asarray(rs.freq), np.asarray(rs.Sy)
+            if fs1.shape != fr.shape or not np.allclose(fr, fs1, rtol=0, atol=ftol):
+                ctx.fail("oracle", "%s: result.freq differs from result.freq of %s on the same simultaneous recording with the same run parameters "
+                         "(last line %.12g vs %.12g)" % (tag, type(single[cls.__name__]).__name__, float(fr[-1]), float(fs1.ravel()[-1])), c,
+                         key="C04:%s:grid-vs-single-setup-class" % cls.__name__)
+        if Sr.shape != S1.shape or fr.shape != grid.shape or not np.allclose(fr, grid, rtol=0, atol=ftol) or not np.allclose(fr, f1, rtol=0, atol=ftol):
+            ctx.fail("oracle", "%s: result.freq/result.Sy are not on the grid k*fs/nxseg of the run parameters (Sy shape %s, expected %s; freq %s last %.12g, "
+                     "grid last %.12g)" % (tag, Sr.shape, S1.shape, fr.shape, float(np.real(fr.ravel()[-1])), grid[-1]),
                      c, key="C04:%s:grid" % cls.__name__)
             continue
+        if cls.__name__ in single:
+            Ss1 = np.asarray(single[cls.__name__].result.Sy)
+            if Ss1.shape[0] == Sr.shape[0] and Ss1.shape[2] == Sr.shape[2]:
+                S1c = Ss1[:, :nr, :]
+                scc = np.maximum(np.abs(S1c).max(axis=(0, 1)), 1e-6 * float(np.abs(S1c).max()))
+                okc = np.linalg.cond(np.moveaxis(S1c[:nr, :, :], 2, 0)) <= COND_MAX
+                devc = np.abs(Sr - S1c).max(axis=(0, 1))
+                if np.any(devc[okc] > TOL * scc[okc]):
+                    ctx.fail("oracle", "%s: result.Sy differs from the reference columns of result.Sy of %s on the same simultaneous recording "
+                             "(max dev %.3g of scale %.3g)" % (tag, type(single[cls.__name__]).__name__, devc[okc].max(), scc.max()), c,
+                             key="C04:%s:single-setup-class" % cls.__name__)
+            else:
+                ctx.fail("oracle", "%s: result.Sy has shape %s, the single-setup class on the same recording gives %s" % (tag, Sr.shape, Ss1.shape), c,
+                         key="C04:%s:shape-vs-single-setup-class" % cls.__name__)
         sc = np.maximum(np.abs(S1).max(axis=(0, 1)), 1e-6 * float(np.abs(S1).max()))
         cond = np.linalg.cond(np.moveaxis(S1[:S1.shape[1], :, :], 2, 0))
         ok = cond <= COND_MAX
@@ -431,7 +493,7 @@ def class_level(ctx, case):
             ctx.fail("oracle", "%s through MultiSetup_PreGER.run_all: result.Sy is not the single-setup cross-spectral matrix of the simultaneous "
                      "recording for the class's run parameters (max dev %.3g of scale %.3g)" % (tag, dev[ok].max(), sc.max()), c,
                      key="C04:%s:single-setup" % cls.__name__)
-        if np.shape(S0) != Sr.shape or not np.allclose(Sr, S0, rtol=1e-12, atol=1e-15 * float(np.abs(S1).max())) or not np.allclose(fr, f0, rtol=1e-12, atol=0):
+        if np.shape(S0) != Sr.shape or not np.allclose(Sr, S0, rtol=1e-12, atol=1e-15 * float(np.abs(S1).max())) or np.shape(f0) != fr.shape or not np.allclose(fr, f0, rtol=0, atol=ftol):
             ctx.fail("correspondence", "%s: result.{freq,Sy} differ from fdd.SD_PreGER(data, fs, nxseg, pov, method_SD) of the run parameters" % tag, c,
                      key="C04:%s:glue" % cls.__name__)
 
@@ -489,7 +551,14 @@ def run(ctx):
                             cap = min(cap, {1: 33, 2: 17, 3: 9}[nrc] if kind == "sim" else {1: 7, 2: 7, 3: 5}[nrc])
                         run_case(ctx, case, pend, cap)
     # segment lengths / overlaps off the power-of-two grid
-    for (nxseg, pov, method) in [(24, 0.3, "per"), (48, 0.6, "per"), (20, 0.1, "cor"), (40, 0.45, "per")] + ([] if quick else [(100, 0.33, "per"), (250, 0.7, "per"), (72, 0.2, "cor")]):
+    # (odd lengths: the grid k*fs/nxseg then ends below fs/2, so a grid rebuilt as linspace(0, fs/2, ..) is visible)
+    offgrid = [(24, 0.3, "per"), (48, 0.6, "per"), (20, 0.1, "cor"), (40, 0.45, "per"),
+               (15, 0.25, "per"), (33, 0.5, "cor"), (65, 0.75, "per"), (27, 0.0, "cor"), (51, 0.4, "per")]
+    if not quick:
+        offgrid += [(100, 0.33, "per"), (250, 0.7, "per"), (72, 0.2, "cor"), (375, 0.25, "per"), (2047, 0.5, "per"), (1025, 0.75, "cor"),
+                    (129, 0.3, "per"), (375, 0.5, "cor"), (999, 0.0, "per")]
+    for (nxseg, pov, method) in offgrid:
+        ctx.hist("nxseg parity", "odd" if nxseg % 2 else "even, not a power of two")
         run_case(ctx, gen_case(ctx, "sim", method, nxseg, pov), pend, 7)
         run_case(ctx, gen_case(ctx, "gen", method, nxseg, pov), pend, 5)
     # malformed stream (~15 %): dead or duplicated reference channel -> exactly singular reference block
@@ -515,10 +584,13 @@ def run(ctx):
         if len(case["ref_ind"][0]) < 2:
             case = gen_case(ctx, "sim", "per", 32, 0.5, dict(nr=2, nch=ctx.rng.randint(4, 8)))
         N = case["N"]
-        nxs = [16, 32, 64] if quick else [32, 64, 128, 256]
+        nxs = [16, 32, 64, 15, 33, 65, 24] if quick else [32, 64, 128, 256, 65, 129, 375, 100]
         ps = []
         for c in range(3):
             ps.append((ctx.rng.choice(nxs), "per" if (j + c) % 3 else "cor", ctx.rng.choice([0.0, 0.25, 0.75, 0.6])))
+        if not any(p[0] % 2 for p in ps):  # every class-level case carries at least one odd segment length
+            c = j % 3
+            ps[c] = (ctx.rng.choice([x for x in nxs if x % 2]), ps[c][1], ps[c][2])
         case["N"] = max(N, 8 * max(p[0] for p in ps))
         case["params"] = ps
         case["level"] = "class"
